@@ -177,7 +177,11 @@ def run_shard(spec, seed, cases, workdir, extra_args=()):
         engine_msgs, r["oracle"] = r["oracle"], []
         for i, line in enumerate(open(os.path.join(workdir, "model.txt")).read().splitlines()):
             op = o[i] if i < len(o) else ""
-            if line.startswith("bad "):
+            if line.startswith("bad ") and op.startswith("placement"):
+                # the placement / order monitors judge the I/O trace of an operation against the pre-image: C17 (placement) and C04 (order)
+                tagp = "C04 order monitor" if line.startswith("bad order") else "C17 placement monitor"
+                r["oracle"].append(f"{tagp}: {line} ({op})")
+            elif line.startswith("bad "):
                 r["oracle"].append(f"C16 image monitor: {line} ({op})")
             elif line.startswith("ok "):
                 kv = dict(x.split("=", 1) for x in line.split()[1:] if "=" in x)
